@@ -5,7 +5,7 @@ from .. import cfgx
 from ..build import AnalysisBroken
 from ..effects import top_function
 
-UNITS = ['base/QXmppDiscoveryIq.cpp', 'client/QXmppDiscoveryManager.cpp', 'client/QXmppClient.cpp']
+UNITS = ['base/QXmppDiscoveryIq.cpp', 'client/QXmppDiscoveryManager.cpp', 'client/QXmppClient.cpp', 'base/QXmppDataForm.cpp']
 VS = 'QXmppDiscoveryIq::verificationString'
 IDENT = 'QXmppDiscoveryIq::Identity::'
 KEYS = ['category', 'type', 'language', 'name']
@@ -28,6 +28,7 @@ def run(prog, run):
     r_source(prog, run)
     r_multi(prog, run)
     r_reply(prog, run)
+    r_form_as_received(prog, run)
 
 
 # ---------------------------------------------------------------------------------------------------------------
@@ -1006,7 +1007,34 @@ def r_source(prog, run):
                        ((p is True and g.binop(g.skip(c)) and g.binop(g.skip(c))[0] == '==') or (p is False and g.binop(g.skip(c)) and g.binop(g.skip(c))[0] == '!='))
                        for c, p in g.atomic_assertions_at(i))
         top = top_function(prog, g)
+        # ... and nothing that runs application / manager code (a signal emission) lies between the recomputation and the emission: such code may register an
+        # extension or change the identity, which the disco#info answer reflects at once
+        stale_path = None
         if recompute:
+            def event_of(h, nid, site=i):
+                m = h.nodes[nid]
+                if m['k'] != 'call':
+                    return None
+                if nid == site and h.id == g.id:
+                    return 'send'
+                if (h.cname(m) or '') == 'QXmppClientPrivate::addProperCapability':
+                    return 'cap'
+                if (h.sym(m) or {}).get('signal'):
+                    return 'emit:' + (h.sym(m) or {}).get('name', '?')
+                return None
+            for q in cfgx.effect_sequences(prog, g, event_of, follow=lambda h: False):
+                if 'send' not in q:
+                    continue
+                k = q.index('send')
+                caps = [x for x in range(k) if q[x] == 'cap']
+                between = [e for e in q[(caps[-1] + 1) if caps else 0:k] if e.startswith('emit:')]
+                if between:
+                    stale_path = (q, between[0][5:])
+        if recompute and stale_path:
+            run.violation(rid, 'clientPresence-emission#%s#handlers-between' % top.qname, g.loc(i),
+                          '%s recomputes the capability hash, then emits %s() and only then sends the presence (effect order %s): whatever a handler of that signal changes in the '
+                          'client\'s extensions or identity is answered in disco#info but missing from the advertised hash' % (top.display()[:50], stale_path[1], list(stale_path[0])))
+        elif recompute:
             run.ok(rid, g.loc(i), '%s: addProperCapability(d->clientPresence) precedes the emission' % top.display()[:50])
         elif unavailable or un_guard:
             run.ok(rid, g.loc(i), '%s: unavailable presence (capabilities not advertised to anyone online)' % top.display()[:50], nontrivial=False)
@@ -1081,3 +1109,21 @@ def r_reply(prog, run):
         if need not in found:
             run.instance(rid)
             run.violation(rid, 'toXmlElementFromChild#%s#missing' % need, f.loc(), 'the %s are not serialised by a loop over the stored list' % need)
+
+
+# --------------------------------------------------------------------------- R7: the form that is hashed is the form that was received
+def r_form_as_received(prog, run):
+    from . import C01
+    rid = run.rule('C20.R7', 'the extension form whose values are hashed is the form as it was received: QXmppDataForm::parse stores every <value/> it reads, in order and as it is - '
+                             'it neither removes, de-duplicates or reorders the collected values (= C01.R10) nor trims / case-folds them (= C01.R13); XEP-0115 hashes every value, so '
+                             'a parser that drops a repeated value makes the hash blind to it', floor=1)
+    fns = [f for f in prog.fns.values() if f.file.endswith('QXmppDataForm.cpp')]
+    if not any(f.qname == 'QXmppDataForm::parse' for f in fns):
+        raise AnalysisBroken('C20.R7: QXmppDataForm::parse not found')
+    found = [x for x in C01._reader_shape_findings(prog, fns) if x[0] in ('R10', 'R13')]
+    run.instance(rid)
+    if found:
+        r, f, i, key, msg = found[0]
+        run.violation(rid, 'QXmppDataForm::parse#%s' % key.split('#')[-1], f.loc(i), 'the verification string is computed over a form that is not the received one: ' + msg)
+    else:
+        run.ok(rid, 'src/base/QXmppDataForm.cpp', 'field values are stored as read (C01.R10 / R13 clauses hold for the data form parser)')
